@@ -148,5 +148,6 @@ theorem wide_stmt_word (L : Layout) (σ : SrcSt) (st : RStmt) (s : String) (w : 
   | opasg _ _ _ => simp [wResult] at h
   | inc _ => simp [wResult] at h
   | dec _ => simp [wResult] at h
+  | chain _ _ _ _ _ => simp [wResult] at h
 
 end CV.GenReg
